@@ -187,6 +187,20 @@ def derive(repo):
             if isinstance(n, (ast.If, ast.IfExp)) and ".__dict__" in _src(n.test):
                 return False
         return True
+    # aliasing between objects: the descriptor must never hand out the stored mutable object itself (then `a.p *= 3`
+    # -- get, in-place multiply, set -- edits an array another simulation / model may hold): __get__ returns a copy
+    # (copy.copy / copy.deepcopy / .copy() / np.array(...)) or __set__ stores one
+    gt = _method(C["_Parameter"], "__get__", rel=rel)
+
+    def _is_copy_expr(e):
+        t = _src(e)
+        return isinstance(e, ast.Call) and (t.startswith("copy.copy(") or t.startswith("copy.deepcopy(") or t.endswith(".copy()")
+                                            or t.startswith("np.array(") or t.startswith("np.copy("))
+    rets = [n for n in ast.walk(gt) if isinstance(n, ast.Return)]
+    get_copies = bool(rets) and all(r.value is not None and _is_copy_expr(r.value) for r in rets)
+    set_copies = any(isinstance(n, ast.Assign) and ".__dict__[" in _src(n.targets[0]) and _is_copy_expr(n.value) for n in ast.walk(st))
+    F["t_param_get_copies"] = get_copies or set_copies
+    L["t_param_get_copies"] = "%s:%d" % (rel, gt.lineno)
     uncond = _set_unconditional(st)
     L["t_param_set_unconditional"] = "%s:%d" % (rel, st.lineno)
     # subclasses overriding __set__ must go through super().__set__
@@ -203,6 +217,11 @@ def derive(repo):
             if isinstance(m, ast.FunctionDef) and m.name == "__set__" and not _contains_call(m, "super()", "__set__"):
                 F["t_param_need"] = False
                 L["t_param_need"] = "%s:%d" % (rel, m.lineno)
+            if isinstance(m, ast.FunctionDef) and m.name == "__get__":
+                rets_ = [x for x in ast.walk(m) if isinstance(x, ast.Return)]
+                if not (rets_ and all(r.value is not None and (_is_copy_expr(r.value) or _contains_call(r, "super()", "__get__")) for r in rets_)):
+                    F["t_param_get_copies"] = False
+                    L["t_param_get_copies"] = "%s:%d" % (rel, m.lineno)
             if isinstance(m, ast.FunctionDef) and m.name == "__set__" and not _set_unconditional(m):
                 uncond = False
                 L["t_param_set_unconditional"] = "%s:%d" % (rel, m.lineno)
@@ -675,7 +694,7 @@ ORDER = ["t_param_need", "t_model_notify", "t_upd_model_need", "t_upd_mesh_need"
          "t_updmesh_need", "t_updmesh_clear", "t_bcinit", "t_dirichlet", "t_neumann", "t_lagrange",
          "t_getk_reset", "t_newton_need", "t_pf_need_d", "t_pf_need_u", "t_pf_setiter_d", "t_pf_setiter_u",
          "t_pf_dmg_inval_u", "t_pf_el_inval_d", "t_csr_key_groups", "t_csr_key_ndof", "t_mass_key_group",
-         "t_param_set_unconditional", "t_model_cache_refresh"]
+         "t_param_get_copies", "t_param_set_unconditional", "t_model_cache_refresh"]
 
 MOPS = ["MTranslate", "MRotate", "MSymmetry", "MCoordSet"]
 
